@@ -65,10 +65,10 @@ def _insert_reach(body, fname):
     """XV_REACH at body entry and after every braced loop."""
     loops = X.find_loops(body)
     inserts = []
-    for k, (start, hd_end, kind) in enumerate(loops):
+    for k, (start, hd_end, kind, tail_end) in enumerate(loops):
         if kind == 'do':
             # hd_end is after the tail "while(cond)"; statement ends at ';'
-            j = body.find(';', hd_end)
+            j = body.find(';', tail_end)
             inserts.append((j + 1, ' XV_REACH("after_loop%d:%s");' % (k, fname)))
         else:
             j = hd_end
